@@ -11,14 +11,25 @@ def life(dev, lh, timeout=900, solver="cadical"):
              what="%s device via the HAL: history template (LH=%d rounds) set? start? append? append? stop? stop? [set? start? append? stop?] close, every call optional (symbolic), with a failing open and one-shot / persistent pwrite failures at symbolic indices" % (name, lh),
              bounds=dict(calls=lh, open_fail_index="-1..4", flock_fail_index="-1..2", pwrite_fail_index="-1..6 one-shot and persistent", packet_bytes="1..2"))
 
+_s2 = importlib.util.spec_from_file_location("tc", os.path.join(VERIF, "props", "_tiff_common.py")); tc = importlib.util.module_from_spec(_s2); _s2.loader.exec_module(tc)
+
+def tiff_life(timeout=1500):
+    fsz = 16 + 1 * (8 + 320 + 8 + 8 + 8 + 16 + 16) + 64
+    h = tc.tiff_h(H, VERIF, "tiff_life", ["MODE=16", "NFRAMES=1", "DESC=12", "FILE_URI=0"], unwind=18, timeout=timeout,
+                  unwindset={"file_write.0": fsz + 1}, rec_violation=True)
+    h.flags = ["--unwindset", "dummy:1"] if False else []
+    h.what = "tiff.cpp (clang IR -> C, validated) through the HAL: set? start? append? append? stop? stop? close, every call optional (symbolic), failing file_create and one-shot/persistent file_write failures at symbolic indices; recursion bounded by unwinding assertions"
+    h.bounds = dict(calls="sub-sequences of set,start,append,append,stop,stop + close", write_fail_index="-1..8 one-shot and persistent", create_fail="yes/no")
+    return h
+
 def harnesses(tier, findings):
     if tier == "quick":
-        return [life(1, 2, 1500), life(2, 1)]
-    return [life(1, 2, 3000), life(2, 2, 3000)]
+        return [life(1, 2, 1500), life(2, 1), tiff_life()]
+    return [life(1, 2, 3000), life(2, 2, 3000), tiff_life(3000)]
 
 META = dict(
     level="model_checking",
     bounds=dict(quick="raw and trash: every sub-sequence of set,start,append,append,stop,stop then close; every open/pwrite fault index", thorough="every sub-sequence of set,start,append,append,stop,stop,set,start,append,stop then close"),
-    outside="tiff and tiff-json devices in this harness family (see the IR-route harnesses); fault kinds other than open()==-1, pwrite()==-1 and pwrite()==0; more than one device sharing descriptors",
+    outside="the tiff-json composite (std::filesystem in set/start is not translatable); fault kinds other than open()==-1, pwrite()==-1 and pwrite()==0; more than one device sharing descriptors",
     assumptions=["syscall model env/fs_model.c; open returns the lowest free descriptor number (POSIX)", "typed memset/memcpy rewrite and case-split allocation sizes", "logger empty"],
 )
